@@ -95,19 +95,23 @@ VALUE_NAMES = [(), ("a",), ("b",), ("c",), ("a", "b")]
 @register
 class SubstituteInterpret(Contract):
     """SubstituteInterpretation.interpret(cls, *args): builds cls(*args) under the base interpretation (entered and left
-    exactly once) and substitutes -- simultaneously -- exactly those pairs of self.subs whose key is introduced by the node
-    being rebuilt (self.fresh) and is an input of the result; keys that merely occur in the result because an already
-    substituted argument brought them along are NOT substituted again (the double-substitution defect, repaired).
-    The clause is split by the known finding C10/lost-substitution-into-rebuilt-term: a key of the original node is lost
-    when the rebuilt term no longer lists it as fresh (a lazy MarkovProduct / Stack / Cat whose rebuilt form evaluates to a
-    compound term)."""
+    exactly once) and then substitutes -- simultaneously --
+      * when cls is the class of the node being rebuilt (self.cls): exactly those pairs of self.subs whose key that node
+        introduces (self.fresh) and the result lists as fresh; keys that merely occur in the result because an already
+        substituted argument brought them along are NOT substituted again (the double-substitution defect, repaired);
+      * for a helper term built by a metaclass while the node is rebuilt (cls is not self.cls): every key it lists as fresh
+        if it is a leaf of the requested class (nothing has been substituted into it yet: GaussianMeta's shift Tensor), and
+        NOTHING if it was evaluated to another kind of term (it is made of already substituted operands: Gaussian' + shift).
+    The first case is split by the known finding lost-substitution-into-rebuilt-term: a key of the original node is lost
+    when the rebuilt term no longer lists it as fresh (a lazy MarkovProduct / Stack / Cat evaluating to a compound term)."""
 
     props = ("C04", "C05")
     file = "funsor/terms.py"
     qualname = "SubstituteInterpretation.interpret"
     total = True
     mutants = (
-        ("every fresh name of the rebuilt term substituted (pre-fix behaviour)", "if k in self.fresh and k in expr.fresh", "if k in expr.fresh"),
+        ("every fresh name of the rebuilt term substituted (pinned-tree behaviour)", "                fresh = self.fresh\n", "                fresh = expr.fresh\n"),
+        ("helper terms matched against the rebuilt node's names (first repair only)", "            if cls is self.cls:\n", "            if True:\n"),
         ("substituted one pair at a time", "                expr = instrument.debug_logged(expr.eager_subs)(fresh_subs)", "                for pair in fresh_subs:\n                    expr = expr.eager_subs((pair,))"),
     )
 
@@ -117,10 +121,12 @@ class SubstituteInterpret(Contract):
                 for own in [(), ("a",), ("a", "b")]:  # names the original node introduces
                     for built in [("a",), ("a", "c"), ("a", "b"), ("c",)]:  # free names of the rebuilt term
                         for fresh_mode in ("lazy", "all", "none"):
-                            yield "keys=%s,values=%s,node_fresh=%s,rebuilt_inputs=%s,rebuilt_fresh=%s" % ("".join(keys), ["".join(v) or "-" for v in vals], "".join(own) or "-", "".join(built), fresh_mode), (keys, vals, own, built, fresh_mode)
+                            yield "role=node,keys=%s,values=%s,node_fresh=%s,rebuilt_inputs=%s,rebuilt_fresh=%s" % ("".join(keys), ["".join(v) or "-" for v in vals], "".join(own) or "-", "".join(built), fresh_mode), ("node", keys, vals, own, built, fresh_mode)
+                        for role in ("helper-leaf", "helper-evaluated"):
+                            yield "role=%s,keys=%s,values=%s,node_fresh=%s,built_inputs=%s" % (role, "".join(keys), ["".join(v) or "-" for v in vals], "".join(own) or "-", "".join(built)), (role, keys, vals, own, built, "all")
 
     def build(self, p, st):
-        keys, vals, own, built, fresh_mode = st
+        role, keys, vals, own, built, fresh_mode = st
         subs = tuple((k, value(v, k)) for k, v in zip(keys, vals))
         log = []
 
@@ -133,17 +139,33 @@ class SubstituteInterpret(Contract):
                 log.append("exit")
                 return False
 
-        rebuilt = Term(("app", "N") + tuple(var(n) for n in built), [n for n in built if fresh_mode == "all" or (fresh_mode == "lazy" and n in own)])
+        holder = {}
 
-        def cls(*args):
-            log.append("build")
-            return rebuilt
+        class Meta(type):
+            def __call__(cls, *args):
+                log.append("build")
+                return holder["rebuilt"]
+
+        class Requested(Term, metaclass=Meta):
+            pass
+
+        class NodeClass(Term, metaclass=Meta):
+            pass
+
+        class Evaluated(Term):
+            pass
+
+        kind = Evaluated if role == "helper-evaluated" else Requested
+        rebuilt = kind.__new__(kind)
+        Term.__init__(rebuilt, ("app", "N") + tuple(var(n) for n in built), [n for n in built if fresh_mode == "all" or (fresh_mode == "lazy" and n in own)])
+        holder["rebuilt"] = rebuilt
 
         class Self:
             pass
 
         s = Self()
         s.subs, s.fresh, s.base_interpretation = subs, frozenset(own), Base()
+        s.cls = Requested if role == "node" else NodeClass
 
         class Instr:
             PROFILE = False
@@ -152,18 +174,23 @@ class SubstituteInterpret(Contract):
             def debug_logged(f):
                 return f
 
-        def Subs(expr, pairs):
-            d = dsubst(expr.den, {k: v.den for k, v in pairs})
-            return Term(d, dfree(d))
-
-        return Ctx(args=(s, cls), namespace=dict(instrument=Instr, Subs=Subs, tuple=tuple, all=core.sall), log=log, rebuilt=rebuilt, subs=subs, st=st)
+        return Ctx(args=(s, Requested), namespace=dict(instrument=Instr, tuple=tuple, frozenset=frozenset, isinstance=isinstance), log=log, rebuilt=rebuilt, subs=subs, st=st)
 
     def ensures(self, ctx, result):
-        keys, vals, own, built, fresh_mode = ctx.st
-        m = {k: v.den for k, v in ctx.subs if k in own and k in built}
-        lost = any(k in own and k in built and k not in ctx.rebuilt.fresh for k, v in ctx.subs)
-        tag = "[rebuilt term no longer lists the name as fresh]" if lost else ""
-        return [("built_once_inside_the_base_interpretation", ctx.log == ["enter", "build", "exit"]), ("exactly_the_nodes_own_names_substituted_once" + tag, isinstance(result, Term) and result.den == dsubst(ctx.rebuilt.den, m))]
+        role, keys, vals, own, built, fresh_mode = ctx.st
+        tag = ""
+        if role == "node":
+            m = {k: v.den for k, v in ctx.subs if k in own and k in built}
+            if any(k in own and k in built and k not in ctx.rebuilt.fresh for k, v in ctx.subs):
+                tag = "[rebuilt term no longer lists the name as fresh]"
+            clause = "exactly_the_nodes_own_names_substituted_once"
+        elif role == "helper-leaf":
+            m = {k: v.den for k, v in ctx.subs if k in built}
+            clause = "helper_leaf_substituted_for_its_own_names"
+        else:
+            m = {}
+            clause = "evaluated_helper_not_substituted_again"
+        return [("built_once_inside_the_base_interpretation", ctx.log == ["enter", "build", "exit"]), (clause + tag, isinstance(result, Term) and result.den == dsubst(ctx.rebuilt.den, m))]
 
 
 # ---- substitute ------------------------------------------------------------------------------------------------------
@@ -195,6 +222,7 @@ class Substitute(Contract):
     total = True
     mutants = (
         ("original node's fresh names not passed on", "                interp.fresh = value.fresh\n", ""),
+        ("class of the node being rebuilt not announced", "                interp.cls = getattr(type(value), \"__origin__\", type(value))\n", ""),
         ("subterms mentioning a key treated as constants", "        if isinstance(x, Funsor) and support.isdisjoint(x.inputs):", "        if isinstance(x, Funsor):"),
     )
 
@@ -266,7 +294,7 @@ class Substitute(Contract):
             """callee model = the contract SubstituteInterpret"""
 
             def __init__(self_, subs_, base):
-                self_.subs, self_.base, self_.fresh = subs_, base, frozenset()
+                self_.subs, self_.base, self_.fresh, self_.cls = subs_, base, frozenset(), None
 
             def __enter__(self_):
                 state["current"] = self_
@@ -278,7 +306,10 @@ class Substitute(Contract):
                 state["depth"] -= 1
                 return False
 
-            def interpret(self_, node, args):
+            def interpret(self_, node, args, cls_token):
+                if self_.cls is not cls_token:
+                    # the callee treats the construction as a helper term: an evaluated compound gets nothing substituted
+                    self_ = type("Helper", (), dict(subs=(), fresh=frozenset()))()
                 fresh_part = ("app", "fresh") + tuple(var(n) for n in sorted(node.fresh))
                 d = ("app", node.label, fresh_part) + tuple(a.den for a in args) if node._ast_values else node.den
                 rebuilt_fresh = dfree(d) if fresh_mode == "all" else (set(node.fresh) if fresh_mode == "lazy" else set())
@@ -286,17 +317,22 @@ class Substitute(Contract):
                 d2 = dsubst(d, m)
                 return Term(d2, dfree(d2) if fresh_mode == "all" else ((set(node.fresh) - set(m)) if fresh_mode == "lazy" else ()), node.label, tuple(args))
 
+        tokens = {}
+
         def stype(v):
             if isinstance(v, Term):
-                def rebuild(*args):
-                    if state["current"] is None:
-                        raise Unsupported("term rebuilt outside the substitute interpretation")
-                    return state["current"].interpret(v, args)
+                if id(v) not in tokens:
 
-                return rebuild
+                    def rebuild(*args, v=v):
+                        if state["current"] is None:
+                            raise Unsupported("term rebuilt outside the substitute interpretation")
+                        return state["current"].interpret(v, args, tokens[id(v)])
+
+                    tokens[id(v)] = rebuild
+                return tokens[id(v)]
             return type(v)
 
-        ns = dict(interpreter=interpreter, SubstituteInterpretation=SubstituteInterpretation, Funsor=Term, type=stype, isinstance=isinstance, dict=dict, OrderedDict=OrderedDict, tuple=tuple, frozenset=frozenset)
+        ns = dict(interpreter=interpreter, SubstituteInterpretation=SubstituteInterpretation, Funsor=Term, type=stype, isinstance=isinstance, getattr=getattr, dict=dict, OrderedDict=OrderedDict, tuple=tuple, frozenset=frozenset)
         return Ctx(args=(expr, subs), namespace=ns, expr=expr, subs=subs, st=st, state=state)
 
     def ensures(self, ctx, result):
